@@ -289,7 +289,9 @@ func c08Loops(c *Ctx) {
 				if f.Parent() == fn {
 					continue
 				}
-				for range callsIn(f, false, func(cc *ssa.CallCommon) bool { return methodName(cc) == loop && cc.StaticCallee() != nil && strings.Contains(cc.StaticCallee().String(), "connection") }) {
+				for range callsIn(f, false, func(cc *ssa.CallCommon) bool {
+					return methodName(cc) == loop && cc.StaticCallee() != nil && strings.Contains(cc.StaticCallee().String(), "connection")
+				}) {
 					okAll = false
 				}
 			}
